@@ -44,7 +44,7 @@ def plan(tier, seed):
 
 def required(tier):
     return {"alone_vs_joint_columns": 100, "subset_permutation_columns": 60, "assemble_haplotype_containment_checked": 30,
-            "pool_read_matrix_checked": 30, "pool_vs_merged_records": 30, "bam_order_runs": 16, "sample_in_two_pools_runs": 8, "datasets_with_shared_bam": 4, "pool_files_with_interleaved_pools": 4}
+            "pool_read_matrix_checked": 30, "pool_vs_merged_records": 30, "bam_order_runs": 16, "sample_in_two_pools_runs": 8, "datasets_with_shared_bam": 4, "pool_files_with_interleaved_pools": 4, "datasets_with_per_sample_inbreeding": 4, "datasets_with_report_fields": 6}
 
 
 def argv(ds, prog, bams, hap=None, ploidy_file=None, extra=()):
@@ -56,8 +56,13 @@ def argv(ds, prog, bams, hap=None, ploidy_file=None, extra=()):
     a += ["--bam"] + list(bams) + ["--ploidy", ploidy_file or ds.ploidy_file]
     if prog != "call-exact":
         a += MCMC + ["--mcmc-seed", str(getattr(ds, "mcmc_seed", 11))]
-    if getattr(ds, "inbreeding", 0.0):
-        a += ["--inbreeding", repr(ds.inbreeding)]
+    if "--inbreeding" not in extra:
+        if getattr(ds, "inbreeding_file", None):
+            a += ["--inbreeding", ds.inbreeding_file]
+        elif getattr(ds, "inbreeding", 0.0):
+            a += ["--inbreeding", repr(ds.inbreeding)]
+    if prog in ("call", "call-exact") and getattr(ds, "report", None):
+        a += ["--report"] + list(ds.report)
     return a + list(extra)
 
 
@@ -110,6 +115,21 @@ def run_shard(tier, seed, spec, col):
         with open(ds.ploidy_file, "w") as fh:
             for s in ds.samples:
                 fh.write("%s\t%d\n" % (s, ds.ploidy[s]))
+        # per-sample parameter files: samples of equal ploidy with DIFFERENT inbreeding coefficients
+        ds.inbreeding_file = None
+        if rng.random() < 0.5:
+            ds.inbreeding_file = os.path.join(root, "inbreeding.txt")
+            vals = [float(v) for v in rng.choice([0.0, 0.1, 0.3, 0.6], size=len(ds.samples))]
+            if len(set(vals)) == 1:
+                vals[-1] = 0.45
+            with open(ds.inbreeding_file, "w") as fh:
+                for s, v in zip(ds.samples, vals):
+                    fh.write("%s\t%r\n" % (s, v))
+            col.count("datasets_with_per_sample_inbreeding")
+        # optional report fields select other code paths (e.g. the full-array path of call-exact)
+        ds.report = [None, ["GP"], ["GL"], ["AFP"], ["GP", "GL", "AFP", "ACP"]][int(rng.integers(5))]
+        if ds.report:
+            col.count("datasets_with_report_fields")
         # haplotype VCF from truth
         recs = []
         for L in ds.loci:
@@ -221,8 +241,9 @@ def run_shard(tier, seed, spec, col):
             for s in ds.samples[3:]:
                 fh.write("%s\t%d\n" % (s, ds.ploidy[s]))
         allb = bam_arg(ds, root, ds.samples, bam_of)
-        po = ASM.program.cli(["mchap"] + argv(ds, "assemble", allb, None, pool_ploidy, ["--sample-pool", pool_file]))
-        pj = ASM.program.cli(["mchap"] + argv(ds, "assemble", allb, None))
+        inb0 = ["--inbreeding", repr(float(ds.inbreeding))]
+        po = ASM.program.cli(["mchap"] + argv(ds, "assemble", allb, None, pool_ploidy, ["--sample-pool", pool_file] + inb0))
+        pj = ASM.program.cli(["mchap"] + argv(ds, "assemble", allb, None, None, inb0))
         for locus in po.loci():
             dp = po._locus_data(locus, po.sample_bams)
             po.encode_sample_reads(dp)
@@ -261,8 +282,9 @@ def run_shard(tier, seed, spec, col):
             fh.write("P1\t%s\nP2\t%s\n" % (merged["P1"], merged["P2"]))
             for s in ds.samples[3:]:
                 fh.write("%s\t%s\n" % (s, bam_of[s]))
-        outP, excP = cli.run_inproc(argv(ds, "call-exact", allb, hv, pool_ploidy, ["--sample-pool", pool_file]))
-        outM, excM = cli.run_inproc(argv(ds, "call-exact", [listM], hv, pool_ploidy))
+        inb = ["--inbreeding", repr(float(ds.inbreeding))]
+        outP, excP = cli.run_inproc(argv(ds, "call-exact", allb, hv, pool_ploidy, ["--sample-pool", pool_file] + inb))
+        outM, excM = cli.run_inproc(argv(ds, "call-exact", [listM], hv, pool_ploidy, inb))
         col.count("sample_in_two_pools_runs")
         case = dict(rep, what="pool-vs-merged")
         col.case(case, nontrivial=True)
